@@ -90,6 +90,7 @@ EvalFlat(e, facts) == Sum(e.xs, e.ops, Len(e.xs), facts)
 
 (* ---- conditions ---- *)
 Rhs(r, facts) == CASE r[1] = "lit" -> r[2]
+                   [] r[1] = "sref" -> IF r[2] \in DOMAIN facts /\ facts[r[2]].t # "abs" THEN facts[r[2]] ELSE r[3]   \* a string naming a fact is read from the facts
                    [] r[1] = "ar"  -> LET v == EvalFlat(r[2], facts) IN IF v.t = "err" THEN Unres ELSE v
 RECURSIVE EvalCond(_, _)
 EvalCond(c, facts) ==
